@@ -481,6 +481,25 @@ class SpecRT:
         for m in modifies:
             if m[0] == 'all':
                 keys.add((m[1], m[2]))
+        # vote-ledger ghosts are functions of the tallies / ballots: a callee that may change those without saying what happens
+        # to the ghosts leaves them unknown (never silently unchanged)
+        from . import models as _M
+        if _M.ledger_on(self.ex):
+            touched = set()
+            for m in modifies:
+                if m[0] == 'all':
+                    touched.add((m[1], m[2]))
+                elif m[0] == 'field':
+                    touched.add((self.field_owner(m[1].cname, m[2]), m[2]))
+            stated = {m[1] for m in modifies if m[0] == 'ghost'}
+            extra = []
+            if ((_M.CAND, 'vote') in touched or (_M.ELEC, 'exhausted') in touched) and 'T' not in stated:
+                extra.append(('ghost', 'T'))
+            if ((_M.CAND, 'vote') in touched or (_M.ELEC, 'residual') in touched) and 'Tm' not in stated:
+                extra.append(('ghost', 'Tm'))
+            if ((_M.BALLOT, 'weight') in touched or (_M.BALLOT, 'index') in touched) and 'G' not in stated:
+                extra.append(('ghost', 'G'))
+            modifies = list(modifies) + extra
         self._in_havoc = True       # ghost effects of a callee are what its contract says, not the field hooks
         try:
             self._havoc(modifies, st)
